@@ -625,10 +625,6 @@ class Forced:
                 # the reader does not hold mdib_lock: every started writer can finish - it has priority
                 self._wait_all_done()
         else:
-            if kind == 'rel' and what == 'mdib_lock' and self.on_release is not None:
-                # a writer left its critical section (commit, or an exception out of the transaction): the reader is
-                # waiting for it, the MDIB is quiescent - its content is THE content of its MdibVersion
-                self.on_release()
             if kind == 'before-acq':
                 lock = self.tracer.locks[what]
                 if lock._owner is not None:  # noqa: SLF001   held by another thread: report "blocked", then block
@@ -712,6 +708,10 @@ class Forced:
         tracer = self.tracer
         tracer.events.clear()
         tracer.on_event = self._hook
+        # a thread other than the reader leaves its critical section (commit, or an exception out of the transaction): while it
+        # still holds mdib_lock the content of the MDIB is THE content of its MdibVersion
+        tracer.on_before_release = (lambda name: self.on_release() if name == 'mdib_lock' and self.on_release is not None
+                                    and threading.current_thread().name != self.reader_tid else None)
         tracer.enabled = True
         # open transactions first (they are the first entries of `started`)
         for k, o in enumerate(self.opened):
@@ -738,6 +738,7 @@ class Forced:
             done.wait(self.TIMEOUT)
         tracer.enabled = False
         tracer.on_event = None
+        tracer.on_before_release = None
         # writers whose injection point lies behind the reader's last event
         for k, p in enumerate(self.points):
             if p >= self.n_reader_events and k not in [kk for kk, *_ in self.started]:
